@@ -65,8 +65,8 @@ func init() {
 		hw.Opts{Groups: groups("c09"), MinSteps: 4, MaxSteps: 60, SmallPrune: true, LargeEvery: 60,
 			WMint: 60, WDeliver: 20, WClean: 8, WSave: 2, WReload: 5, WQuery: 8})
 
-	hprop("C10", histRule+"Clean is inserted at tape-chosen positions, 1-3 times back to back; a canonical rendering of every observable before and after must be identical, and the run continues under the tip/ancestry oracle so that side branches must still extend and overtake; non-trivial = every run with at least one Clean",
-		25, 900, nil, nil, "exploration",
+	hprop("C10", histRule+"Clean is inserted at tape-chosen positions, 1-3 times back to back; a canonical rendering of every observable before and after must be identical, and the run continues under the tip/ancestry oracle so that side branches must still extend and overtake; one long-chain run in four uses the real prune depth with the chain grown to just below height 10000 and a heavier tip plus a lighter fork that overtakes a few heights later (the best chain passes the automatic-clean height by reorganisation); non-trivial = every run with at least one Clean",
+		25, 900, []string{"boundary-mode", "boundary-straddle-attempt", "reorg-skipped-automatic-clean-height", "clean-with>=2-side-branches", "prune-dropped-best-chain-history"}, nil, "exploration",
 		hw.Opts{Groups: groups("c10", "c01"), MinSteps: 4, MaxSteps: 60, SmallPrune: true, LargeEvery: 60,
 			WMint: 60, WDeliver: 20, WClean: 14, WSave: 2, WReload: 3})
 
@@ -90,8 +90,8 @@ func init() {
 		hw.Opts{Groups: groups("c18"), MinSteps: 4, MaxSteps: 50, SmallPrune: true, LargeEvery: 60, Txids: true,
 			WMint: 60, WDeliver: 20, WClean: 5, WSave: 2, WReload: 4, WProof: 25})
 
-	hprop("C19", histRule+"at tape-chosen points GetLocatorHashes(max) for max in {1,2,3,10,50} is checked for membership (best-chain header or first header of a side branch), newest-first order starting at the tip's parent, no duplicates and the maximum; then for every root-to-leaf path of the reference tree (a conformant peer on that chain) the protocol reply to the locator is computed and its first header submitted: it must connect; non-trivial = every run with at least one locator",
-		25, 900, []string{"locator-at-height<=1", "locator-on-pruned-chain", "locator-with>=2-side-branches", "conformant-peer-reply", "peer-on-sibling-of-tip"}, nil, "exploration",
+	hprop("C19", histRule+"at tape-chosen points GetLocatorHashes(max) for max in {1,2,3,10,50} is checked for membership (best-chain header or first header of a side branch), newest-first order starting at the tip's parent, no duplicates and the maximum; then for every root-to-leaf path of the reference tree (a conformant peer on that chain) the protocol reply to the locator is computed and its first header submitted: it must connect; chain splits are configured at tape-chosen low heights through the verif hook SetSplitsForSimulation (the other chain's first header must be refused), so locators are taken below, between and above configured splits; non-trivial = every run with at least one locator",
+		25, 900, []string{"locator-at-height<=1", "locator-on-pruned-chain", "locator-with>=2-side-branches", "conformant-peer-reply", "peer-on-sibling-of-tip", "split-configured", "locator-contains-split-fork-point"}, nil, "exploration",
 		hw.Opts{Groups: groups("c19"), MinSteps: 2, MaxSteps: 50, SmallPrune: true, LargeEvery: 60,
 			WMint: 60, WDeliver: 20, WClean: 5, WSave: 2, WReload: 4, WLocator: 20, WSplit: 25})
 }
